@@ -1,6 +1,8 @@
 package main
 
 import (
+	"strings"
+	"encoding/json"
 	"unsafe"
 	"bytes"
 	"fmt"
@@ -122,8 +124,70 @@ func (c *Ctx) aliasCheck(key string, flat []byte, calls []roCall, outer ...[][]b
 	}
 }
 
+// freshResults: values the library hands out must not alias hidden shared state - mutate what one call
+// returned (the bytes and the slice elements) and call again: the second result must be what the first was
+func (c *Ctx) freshResults() {
+	type gen struct {
+		name string
+		run  func() [][]byte
+		mut  func()
+	}
+	var last []share.Share
+	shareList := func(name string, f func() []share.Share) gen {
+		return gen{name, func() [][]byte { last = f(); return sharesToBytes(last) }, func() {
+			for i := range last {
+				b := last[i].ToBytes()
+				for j := range b {
+					b[j] ^= 0xff
+				}
+			}
+			if len(last) > 0 {
+				junk, _ := share.NewShare(bytes.Repeat([]byte{0x11}, 512))
+				last[0] = *junk
+			}
+		}}
+	}
+	gens := []gen{
+		shareList("square.EmptySquare()", func() []share.Share { return square.EmptySquare() }),
+		shareList("square.Construct(nil)", func() []share.Share { s, _ := square.Construct(nil, 4, 64); return s }),
+		shareList("square.Build(nil)", func() []share.Share { s, _, _ := square.Build(nil, 4, 64); return s }),
+		shareList("share.TailPaddingShares(2)", func() []share.Share { return share.TailPaddingShares(2) }),
+		shareList("share.ReservedPaddingShares(2)", func() []share.Share { return share.ReservedPaddingShares(2) }),
+		shareList("share.TailPaddingShare()", func() []share.Share { return []share.Share{share.TailPaddingShare()} }),
+		shareList("share.ReservedPaddingShare()", func() []share.Share { return []share.Share{share.ReservedPaddingShare()} }),
+	}
+	for _, g := range gens {
+		c.oracle()
+		first := digList(g.run())
+		g.mut()
+		second := digList(g.run())
+		// also after decoding JSON into the variable that received the first result (reuse of a square variable)
+		if first != second {
+			c.violate("C17", "", g.name+" hands out memory that a later call returns again: after the caller modified the first result, the second call returns different bytes", "", []string{g.name})
+		}
+	}
+	// the documented idiom `sq, _ := Construct(nil, ...); json.Unmarshal(nextBlock, &sq)` must not change what
+	// the library returns for the empty list afterwards
+	c.oracle()
+	before := digList(sharesToBytes(square.EmptySquare()))
+	sq, _ := square.Construct(nil, 4, 64)
+	w := share.NewCompactShareSplitter(share.TxNamespace, 0)
+	w.WriteTx([]byte{1, 2, 3})
+	blk, _ := w.Export()
+	js, _ := json.Marshal(blk)
+	_ = json.Unmarshal(js, &sq)
+	if after := digList(sharesToBytes(square.EmptySquare())); after != before {
+		c.violate("C17", "", "decoding JSON into a variable that held the result of Construct(nil) changed what EmptySquare() returns", "", []string{"Construct(nil) + json.Unmarshal"})
+	}
+	empty := square.EmptySquare()
+	if _, out := safeDeconstruct(empty); !strings.HasPrefix(out, "ok") {
+		c.violate("C17", "", "Deconstruct(EmptySquare()) fails after an earlier result of Construct(nil) was reused by the caller: "+out, "", nil)
+	}
+}
+
 func streamAlias(c *Ctx) {
 	c.stats.Cases = 0
+	c.freshResults()
 	nc := c.n(300, 4000)
 	for i := 0; i < nc; i++ {
 		c.stats.Cases++
@@ -191,7 +255,27 @@ func streamAlias(c *Ctx) {
 			if n > k {
 				c.nontrivial(desc + fmt.Sprint(gap))
 			}
+			// a decoder given a receiver that already HOLDS a view must not write through it: JSON in the
+			// base64 form and in the array-of-numbers form, and a 513-element array that is rejected
+			other := c.rng.Bytes(512)
+			copy(other, shares[0].ToBytes()[:29])
+			otherShare, _ := share.NewShare(other)
+			b64JSON, _ := json.Marshal(*otherShare)
+			nums := make([]string, 512)
+			for bi, bb := range other {
+				nums[bi] = fmt.Sprint(bb)
+			}
+			arrJSON := []byte("[" + strings.Join(nums, ",") + "]")
+			longJSON := []byte("[" + strings.Join(nums, ",") + ",1]")
+			decodeInto := func(js []byte) string {
+				dst := shares[0] // a copy of the struct, still a view of the flat buffer
+				err := json.Unmarshal(js, &dst)
+				return fmt.Sprint(err == nil, dig(dst.ToBytes()))
+			}
 			c.aliasCheck("blob shares "+desc, flat, []roCall{
+				{"Share.UnmarshalJSON(base64) into a share holding a view", func() string { return decodeInto(b64JSON) }},
+				{"Share.UnmarshalJSON(array of numbers) into a share holding a view", func() string { return decodeInto(arrJSON) }},
+				{"Share.UnmarshalJSON(513 numbers, rejected) into a share holding a view", func() string { return decodeInto(longJSON) }},
 				{"ParseBlobs", func() string { o, _ := safeParseBlobs(shares); return o }},
 				{"ParseShares", func() string { o, _ := safeParseShares(shares, false); return o }},
 				{"Sequence.RawData", func() string {
